@@ -19,6 +19,12 @@
 (define-fun-rec tappend ((a TList) (b TList)) TList
   (ite ((_ is nil) a) b (cons (hd a) (tappend (tl a) b))))
 
+; every variable id occurring in a term is >= b
+(define-funs-rec ((varsge ((t Term) (b Int)) Bool) (varsgel ((l TList) (b Int)) Bool))
+ ((ite ((_ is TVar) t) (>= (vid t) b) (ite ((_ is TFun) t) (varsgel (fargs t) b) true))
+  (ite ((_ is nil) l) true (and (varsge (hd l) b) (varsgel (tl l) b)))))
+(define-fun mapok ((m (Array Int Int)) (b Int)) Bool
+  (forall ((k Int)) (! (=> (>= (select m k) 0) (>= (select m k) b)) :pattern ((select m k)))))
 ; ---- fresh copies of terms (C13): resolve, then replace every unbound variable through the
 ;      mapping m (variable id -> new id, -1 = not yet mapped), allocating new ids from n upwards
 (declare-datatypes ((RnT 0) (RnL 0)) (
@@ -111,3 +117,23 @@
         (forall ((q Int)) (! (=> (< q nr0) (= (select ls q) (select ls0 q))) :pattern ((select ls q))))
         (forall ((q Int)) (! (=> (< q nr0) (= (select av q) (select av0 q))) :pattern ((select av q))))
         (forall ((q Int)) (! (=> (< q nr0) (= (select pb q) (select pb0 q))) :pattern ((select pb q)))))))))
+
+; makelist: Python list of terms -> Prolog list
+(define-fun-rec mklist ((l TList)) Term
+  (ite ((_ is nil) l) (TAtom "[]") (TFun "." (cons (hd l) (cons (mklist (tl l)) nil)))))
+; number of positional parameters of a function value (inspect.signature, A-EXT-INSPECT)
+(declare-fun nparams (Int) Int)
+(assert (forall ((f Int)) (! (>= (nparams f) 0) :pattern ((nparams f)))))
+; recursion depth of the running interpreter (ghost): sys.setrecursionlimit(n) raises iff n <= depth
+(declare-fun rdepth () Int)
+; L-RN-LEN (proved by induction in vf/lemmas.py): a fresh copy has the length of the original
+(assert (forall ((l TList) (m (Array Int Int)) (n Int) (s Store)) (! (= (len (rl (rnl l m n s))) (len l)) :pattern ((rnl l m n s)))))
+
+; L-RN-FRESH (C13; proved by induction in vf/lemmas.py): a fresh copy made with allocation counter n
+; contains only variables with id >= n - it shares no variable with anything that existed before
+(assert (forall ((l TList) (n Int) (s Store)) (! (varsgel (fresh_copy l n s) n) :pattern ((fresh_copy l n s)))))
+
+; chain_functions(f1, f2): a function value whose answers are those of f1 then those of f2 (None dropped);
+; each part is its own generator, so a cut (return) inside f1 ends f1 only (A-EXT-ITERTOOLS)
+(declare-fun chainfn (Int Int) Int)
+(assert (forall ((a Int) (b Int)) (! (>= (chainfn a b) 0) :pattern ((chainfn a b)))))
